@@ -7817,7 +7817,10 @@ class SFTPServer:
             newdir = posixpath.dirname(newpath)
             abspath1 = self.map_path(posixpath.join(newdir, oldpath))
 
-            mapped_newdir = self.map_path(newdir)
+            # The link is created in the directory newdir physically
+            # resolves to, so its target has to be checked and rewritten
+            # relative to that directory and not to its lexical name
+            mapped_newdir = os.path.realpath(self.map_path(newdir))
             abspath2 = os.path.join(mapped_newdir, oldpath)
 
             # Make sure the symlink doesn't point outside the chroot
